@@ -13,6 +13,7 @@ use futures_util::{FutureExt, StreamExt};
 use hickory_net::xfer::Protocol;
 use hickory_net::BufDnsStreamHandle;
 use hickory_proto::op::{Edns, Header, Message, Query};
+use hickory_proto::dnssec::rdata::DNSSECRData;
 use hickory_proto::rr::{RData, Record};
 use hickory_proto::serialize::binary::{BinDecodable, BinDecoder, BinEncodable, BinEncoder};
 use hickory_proto::ProtoError;
@@ -43,6 +44,21 @@ pub fn rdata_modelled(d: &RData) -> bool {
             | RData::Update0(_)
             | RData::ZERO
             | RData::TSIG(_)
+            | RData::DNSSEC(DNSSECRData::DS(_))
+            | RData::DNSSEC(DNSSECRData::CDS(_))
+            | RData::DNSSEC(DNSSECRData::DNSKEY(_))
+            | RData::DNSSEC(DNSSECRData::CDNSKEY(_))
+            | RData::DNSSEC(DNSSECRData::NSEC3PARAM(_))
+            | RData::TLSA(_)
+            | RData::SMIMEA(_)
+            | RData::SSHFP(_)
+            | RData::OPENPGPKEY(_)
+            | RData::CERT(_)
+            | RData::CAA(_)
+            | RData::DNSSEC(DNSSECRData::KEY(_))
+            | RData::DNSSEC(DNSSECRData::SIG(_))
+            | RData::DNSSEC(DNSSECRData::RRSIG(_))
+            | RData::NAPTR(_)
     )
 }
 
@@ -521,7 +537,7 @@ impl NamePool {
 }
 
 pub fn gen_rdata_tier(r: &mut Rng, pool: &mut NamePool) -> RData {
-    match r.below(14) {
+    match r.below(16) {
         0 | 1 => RData::A(A(std::net::Ipv4Addr::from(r.next() as u32))),
         2 => RData::AAAA(AAAA(std::net::Ipv6Addr::from(((r.next() as u128) << 64) | r.next() as u128))),
         3 => RData::NS(NS(pool.name(r, false))),
@@ -551,6 +567,15 @@ pub fn gen_rdata_tier(r: &mut Rng, pool: &mut NamePool) -> RData {
             RData::NULL(NULL::with(r.bytes(n)))
         }
         12 => RData::ANAME(hickory_proto::rr::rdata::ANAME(pool.name(r, false))),
+        14 | 15 => {
+            // the name-free "blob" family (stage 3): a typed value obtained by decoding a well-formed seed
+            let t = *r.pick(&[43u16, 59, 48, 60, 52, 53, 44, 61, 37, 51, 257, 25, 35, 46]);
+            let seed = crate::props::c01::seed_rdata(r, t);
+            match RData::read(BinDecoder::new(&seed), RecordType::from(t)) {
+                Ok(d) => d,
+                Err(_) => RData::A(A(std::net::Ipv4Addr::from(r.next() as u32))),
+            }
+        }
         _ => {
             let n = r.range(1, 20) as usize;
             RData::Unknown { code: RecordType::from(*r.pick(&[99u16, 65280, 3])), rdata: NULL::with(r.bytes(n)) }
